@@ -7,7 +7,6 @@ from dataclasses import dataclass, field, replace
 from typing import (
     TYPE_CHECKING,
     Any,
-    ClassVar,
     Iterable,
     Mapping,
     Sequence,
@@ -59,12 +58,7 @@ class BaseMatcher(ABC):
 
 @dataclass(frozen=True, slots=True)
 class AnyMatcher(BaseMatcher):
-    _instance: ClassVar[AnyMatcher | None] = None
-
-    def __new__(cls, *args: Any, **kwargs: Any) -> AnyMatcher:
-        if cls._instance is None:
-            cls._instance = object.__new__(cls)
-        return cls._instance
+    # Not a singleton: every occurrence may carry its own capture name
 
     def _match(self, value: Any, ctx: _Vars) -> _MatchRes:
         return (True, {})
